@@ -639,6 +639,17 @@ func init() {
 			}
 		}
 		ctx.Res.Extra["real_ticker_failures"] = fails
+		// several goroutines call the root's Close at the same moment (uncontrolled: the test-and-set in
+		// Close has no yield point inside): no panic, one of them performs the shutdown, the others return
+		// nil, the reporter is closed once, everything recorded is delivered
+		for k := 0; k < 2; k++ {
+			cs := map[string]interface{}{"concurrent_root_close": true, "cached": k == 1, "goroutines": 4, "rounds": 400}
+			f := c08CloseStorm(400, 4, k == 1)
+			ctx.Case(cs, "", "concurrent-root-close", "")
+			if f != "" {
+				ctx.Fail("close_is_a_complete_idempotent_barrier", f, cs, nil)
+			}
+		}
 		// after Close has returned: further Close calls, scopes obtained afterwards (every derivation,
 		// including the ones that lead back to the root's own identity), recording on old handles
 		for k := 0; k < 8; k++ {
@@ -650,6 +661,73 @@ func init() {
 			}
 		}
 	}
+}
+
+func c08CloseStorm(rounds, G int, cached bool) string {
+	for r := 0; r < rounds; r++ {
+		log := &Log{}
+		var opts tally.ScopeOptions
+		if cached {
+			opts = tally.ScopeOptions{OmitCardinalityMetrics: true, CachedReporter: &RecCachedCloser{RecCached: RecCached{L: log, Caps: caps{true, true}}}}
+		} else {
+			opts = tally.ScopeOptions{OmitCardinalityMetrics: true, Reporter: &RecCloser{RecReporter: RecReporter{L: log, Caps: caps{true, true}}}}
+		}
+		var interval time.Duration
+		if r%2 == 1 {
+			interval = 200 * time.Microsecond
+		}
+		root, closer := tally.NewRootScope(opts, interval)
+		root.Counter("c").Inc(5)
+		root.Tagged(map[string]string{"k": "v"}).Counter("d").Inc(7)
+		var arrived int32
+		var wg sync.WaitGroup
+		var mu sync.Mutex
+		panicked := ""
+		var errs []error
+		for g := 0; g < G; g++ {
+			wg.Add(1)
+			go func() {
+				defer wg.Done()
+				defer func() {
+					if p := recover(); p != nil {
+						mu.Lock()
+						panicked = fmt.Sprint(p)
+						mu.Unlock()
+					}
+				}()
+				atomic.AddInt32(&arrived, 1)
+				for atomic.LoadInt32(&arrived) < int32(G) {
+				}
+				err := closer.Close()
+				mu.Lock()
+				errs = append(errs, err)
+				mu.Unlock()
+			}()
+		}
+		wg.Wait()
+		if panicked != "" {
+			return fmt.Sprintf("round %d: %d goroutines called Close on the same root at the same moment: panic: %s", r, G, panicked)
+		}
+		var sum int64
+		closes := 0
+		for _, e := range log.Snapshot() {
+			switch e.K {
+			case 1:
+				sum += e.I[0]
+			case 21:
+				sum += e.I[1]
+			case 7:
+				closes++
+			}
+		}
+		if sum != 12 {
+			return fmt.Sprintf("round %d: %d concurrent Close calls: 12 recorded before, %d delivered when all had returned", r, G, sum)
+		}
+		if closes != 1 {
+			return fmt.Sprintf("round %d: %d concurrent Close calls: the reporter was closed %d times", r, G, closes)
+		}
+	}
+	return ""
 }
 
 // c08After: a root with some scopes and metrics is closed; afterwards scopes are obtained by every kind
